@@ -92,9 +92,9 @@ def main(pid, tier, replay_path=None, only=None):
         if not sel:
             continue
         names = [h.name for h in sel]
-        to = grp.get("timeout", {}).get(tier, 600 if tier == "quick" else 1500)
+        to = grp.get("timeout", {}).get(tier, 1200 if tier == "quick" else 1800)  # slowest quick harness ≈ 260 s on an idle 16-core box; generous margin for a loaded one
         res, info = kani.run(grp["package"], names, grp.get("flags", []), jobs=grp.get("jobs"),
-                             harness_timeout=to, total_timeout=grp.get("total_timeout", {}).get(tier, 3000 if tier == "quick" else 14000),
+                             harness_timeout=to, total_timeout=grp.get("total_timeout", {}).get(tier, 5400 if tier == "quick" else 20000),
                              label="%s-%s-%d" % (pid, tier, gi))
         ev["cmds"].append(info["cmd"])
         ev["tools"] = info.get("tools", ev["tools"])
